@@ -68,6 +68,15 @@ def schema_units(run, with_big=True):
             {"name": "l", "id": 2, "type": ("arr", ("i", 8), 2), "range": (0, 1)},
             {"name": "f", "id": 3, "type": ("f32",), "range": (-1.5, 1.5), "unit": "V"},
             {"name": "s", "id": 4, "type": ("str",), "unit": "x"}]},
+        # enums whose NAMES begin like builtin integer types (i..., u..., f...), holding values with their top bit set
+        shapes.mk_enum("ignition", 3), shapes.mk_enum("i2c_state", 200), shapes.mk_enum("u_mode", 5), shapes.mk_enum("f32x", 129), shapes.mk_enum("i", 1),
+        shapes.mk_struct("EnumNames", [("a", 0, ("u", 3)), ("ig", 1, ("enum", "ignition")), ("st", 2, ("enum", "i2c_state")), ("um", 3, ("opt", ("enum", "u_mode"))),
+                                       ("fx", 4, ("arr", ("enum", "f32x"), 2)), ("l", 5, ("dyn", ("enum", "i2c_state"))), ("one", 6, ("enum", "i"))]),
+        # field names that are also the names of dict methods / attributes of Python objects: values are looked up BY KEY
+        shapes.mk_struct("DictIn", [("items", 0, ("u", 8)), ("keys", 1, ("i", 5))]),
+        shapes.mk_struct("DictNames", [("items", 0, ("u", 8)), ("values", 1, ("i", 12)), ("keys", 2, ("str",)), ("get", 3, ("opt", ("u", 4))), ("copy", 4, ("struct", "DictIn")),
+                                       ("pop", 5, ("dyn", ("struct", "DictIn"))), ("update", 6, ("f32",)), ("clear", 7, ("arr", ("u", 2), 2)), ("__class__", 8, ("u", 1)),
+                                       ("setdefault", 9, ("u", 3)), ("fromkeys", 10, ("u", 3)), ("__len__", 11, ("u", 2)), ("popitem", 12, ("i", 2))]),
         # integer widths written with a leading zero (u05, i08): the same types as u5 and i8
         shapes.mk_struct("Padded", [("a", 0, ("u", 1, "u01")), ("b", 1, ("i", 8, "i08")), ("c", 2, ("opt", ("u", 9, "u09"))),
                                     ("d", 3, ("arr", ("i", 3, "i03"), 2)), ("e", 4, ("dyn", ("u", 5, "u05"))), ("z", 5, ("u", 7, "u07"))]),
